@@ -31,7 +31,7 @@ COMPONENTS_STUB = ["UDP network/select/clock (simulated)",
 def plan(tier, prop):
     quick = tier == "quick"
     return {
-        "runs": 6000 if quick else 400000,
+        "runs": 12000 if quick else 500000,
         "budget_s": 50 if quick else 800,
         "chunk": 40 if quick else 200,
         "rule": "each run = one seeded machine and a history of 1-40 "
